@@ -99,6 +99,9 @@ type ResolverOpt struct {
 	FailoverDCs    []string
 	Subsets        []string
 	DefaultSubset  string
+	// FailoverTargets: targets-form failover; an entry "peer:<name>" is a cluster-peer target (same service name),
+	// anything else a local service
+	FailoverTargets []string
 }
 
 func Resolver(name string, o ResolverOpt) CE {
@@ -115,6 +118,9 @@ func Resolver(name string, o ResolverOpt) CE {
 	if o.DefaultSubset != "" {
 		lab += "def:" + o.DefaultSubset
 	}
+	if len(o.FailoverTargets) > 0 {
+		lab += "|targets:" + strings.Join(o.FailoverTargets, ",")
+	}
 	return CE{Label: lab, Make: func() structs.ConfigEntry {
 		r := &structs.ServiceResolverConfigEntry{Kind: structs.ServiceResolver, Name: name, DefaultSubset: o.DefaultSubset}
 		if len(o.Subsets) > 0 {
@@ -128,6 +134,17 @@ func Resolver(name string, o ResolverOpt) CE {
 		}
 		if o.Failover != "" || o.FailoverSubset != "" || len(o.FailoverDCs) > 0 {
 			r.Failover = map[string]structs.ServiceResolverFailover{"*": {Service: o.Failover, ServiceSubset: o.FailoverSubset, Datacenters: o.FailoverDCs}}
+		}
+		if len(o.FailoverTargets) > 0 {
+			var ts []structs.ServiceResolverFailoverTarget
+			for _, t := range o.FailoverTargets {
+				if strings.HasPrefix(t, "peer:") {
+					ts = append(ts, structs.ServiceResolverFailoverTarget{Service: name, Peer: strings.TrimPrefix(t, "peer:")})
+				} else {
+					ts = append(ts, structs.ServiceResolverFailoverTarget{Service: t})
+				}
+			}
+			r.Failover = map[string]structs.ServiceResolverFailover{"*": {Targets: ts}}
 		}
 		return r
 	}}
